@@ -1,5 +1,7 @@
 import CookModel.Num.Fraction
 import CookModel.Lemmas.Fraction
+import CookModel.Lemmas.FractionMore
+import CookModel.Lemmas.FractionDisplay
 /-
   C12  Fraction approximation never misstates a value.
 
@@ -73,11 +75,114 @@ theorem C12_display_branch (t : List FracEntry) (v acc : Rat) (maxDen maxWhole :
   have hp := newApprox_pos t v acc maxDen maxWhole n h
   rw [hv]; exact fun h0 => by rw [h0] at hp; exact absurd hp (by decide)
 
+/-! ## additions of the clause audit (notes/audit-C12.md) -/
+
+/-- The table is well formed whatever arithmetic its keys are computed with — in particular the
+    table the code builds with f64 arithmetic (`floatTable`, the one the driver runs) has only
+    entries `num/den` with a supported denominator and `0 < num < den`, so `C12_shape` applies to
+    it as well, for every list of denominators (not only the generated one). -/
+theorem C12_table_ok_any_arith (α : Type) [Arith α] (denoms : List Nat) :
+    tableOK denoms (mkTable α denoms) = true :=
+  fracm_mkTable_ok α denoms
+
+/-- …instantiated at the f64-built table -/
+theorem C12_float_table_ok : tableOK Gen.DENOMS floatTable = true :=
+  fracm_mkTable_ok Float Gen.DENOMS
+
+/-- Non-finite inputs are declined, and so are inputs that compare `≤ 0`: stated for every
+    arithmetic instance (the f64 one included), since it is the first test of `new_approx`. -/
+theorem C12_declines_nonfinite {α : Type} [Arith α] (t : List FracEntry) (v acc : α)
+    (maxDen maxWhole : Nat)
+    (h : Arith.isFinite v = false ∨ Arith.le v (Arith.ofNat 0) = true) :
+    newApprox t v acc maxDen maxWhole = none := by
+  rcases h with h | h
+  · exact fracm_newApprox_nonfinite t v acc maxDen maxWhole h
+  · exact fracm_newApprox_le_zero t v acc maxDen maxWhole h
+
+/-- `C12_integers` without the hypothesis on the generated tolerance constant (it is decided):
+    every integer `0 < k ≤ maxWhole` below `u32::MAX` comes back as the plain number `k`, for every
+    table, accuracy and maximum denominator. -/
+theorem C12_integers_within_limit (t : List FracEntry) (k : Nat) (acc : Rat) (maxDen maxWhole : Nat)
+    (hk : 0 < k) (hle : k ≤ maxWhole) (hlt : k < u32Max) :
+    newApprox t (k : Rat) acc maxDen maxWhole = some (.regular (k : Rat)) :=
+  newApprox_int t k acc maxDen maxWhole hk hle hlt fracm_eps_pos
+
+/-- What is printed plus the recorded error is the input: for every fraction result `w n/d (err)`
+    of `new_approx`, `Display` does not take its `value() == 0` branch and the number a reader
+    understands by the printed form (`w n/d`, `n/d`, `w`), plus `err`, equals the input exactly. -/
+theorem C12_display_exact (t : List FracEntry) (v acc : Rat) (maxDen maxWhole w n d : Nat) (e : Rat)
+    (h : newApprox t v acc maxDen maxWhole = some (.fraction w n d e)) :
+    (fracForm (decide ((Number.fraction w n d e : Number Rat).value = 0)) w n d).denote + e = v := by
+  have hne := C12_display_branch t v acc maxDen maxWhole _ h
+  have hv := C12_exact t v acc maxDen maxWhole _ h
+  simp only [hne, decide_false]
+  rw [fracForm_denote]
+  simp only [Number.value, rat_ofNat, rat_add, rat_div] at hv
+  rw [← hv]; grind
+
+/-- The printed *string*: reading the characters `Display` prints for a fraction (`0`, `w`, `n/d`,
+    `w n/d` — `FracForm.render`, the string the driver compares with the real `Display` output) back
+    as decimal numerals separated by one space and one slash (`readFraction`) gives exactly
+    `FracForm.denote`, for every print shape and all numbers. -/
+theorem C12_display_string_denotes (f : FracForm) :
+    readFraction f.render.toList = some f.denote :=
+  frd_read_render f
+
+/-- …hence for every fraction result of `new_approx`: the number read off the printed string, plus
+    the recorded error, is the input. -/
+theorem C12_display_string_exact (t : List FracEntry) (v acc : Rat) (maxDen maxWhole w n d : Nat)
+    (e : Rat) (h : newApprox t v acc maxDen maxWhole = some (.fraction w n d e)) :
+    ∃ x, readFraction
+        (fracForm (decide ((Number.fraction w n d e : Number Rat).value = 0)) w n d).render.toList
+      = some x ∧ x + e = v :=
+  ⟨_, frd_read_render _, C12_display_exact t v acc maxDen maxWhole w n d e h⟩
+
+/-- All clauses at once, on the table built from the current source constants, with no side
+    condition: `new_approx` either declines, or the input is positive and the result has exactly
+    the input as its value and is
+    * a plain number equal to the input, which is then an integer up to the 1e-10 tolerance with
+      its whole part within `maxWhole`, or
+    * a fraction whose error is within `acc · v`, whose whole part is within `maxWhole`, and whose
+      fractional part is absent (`0/1`) or has a supported denominator `≤ maxDen` (hence `≤ 64`)
+      and a numerator `0 < n < d`. -/
+theorem C12_all_clauses (v acc : Rat) (maxDen maxWhole : Nat) :
+    newApprox ratTable v acc maxDen maxWhole = none ∨
+    ∃ r, newApprox ratTable v acc maxDen maxWhole = some r ∧ 0 < v ∧ r.value = v ∧
+      ((r = .regular v ∧ v - (ratTrunc v : Rat) < Gen.APPROX_EPS.rat ∧ (ratTrunc v).toNat ≤ maxWhole) ∨
+       ∃ w n d e, r = .fraction w n d e ∧ Rat.abs e ≤ acc * v ∧ w ≤ maxWhole ∧
+         ((n = 0 ∧ d = 1) ∨ (0 < n ∧ n < d ∧ d ≤ maxDen ∧ d ≤ 64 ∧ d ∈ Gen.DENOMS))) := by
+  cases h : newApprox ratTable v acc maxDen maxWhole with
+  | none => exact Or.inl rfl
+  | some r =>
+    refine Or.inr ⟨r, rfl, newApprox_pos _ _ _ _ _ _ h, C12_exact _ _ _ _ _ _ h, ?_⟩
+    cases r with
+    | regular x =>
+      have := C12_regular _ _ _ _ _ _ h
+      exact Or.inl ⟨by rw [this.1], this.2⟩
+    | fraction w n d e =>
+      have hs := C12_shape _ _ _ _ _ _ _ _ _ C12_table_ok.1 h
+      refine Or.inr ⟨w, n, d, e, rfl, C12_err_bound _ _ _ _ _ _ _ _ _ h, hs.1, ?_⟩
+      rcases hs.2 with h0 | ⟨h1, h2, h3, h4⟩
+      · exact Or.inl h0
+      · have := (List.all_eq_true.mp C12_denoms_ok) d h4
+        simp only [decide_eq_true_eq] at this
+        exact Or.inr ⟨h1, h2, h3, this.2, h4⟩
+
 /-! Non-vacuity: concrete calls on the real table. -/
 example : newApprox ratTable (3/2 : Rat) (5/100) 4 10 = some (.fraction 1 1 2 0) := by decide +kernel
 example : newApprox ratTable (2501/10000 : Rat) (5/100) 4 10 = some (.fraction 0 1 4 (1/10000)) := by
   decide +kernel
 example : newApprox ratTable (1/100 : Rat) (5/100) 4 10 = none := by decide +kernel
 example : 0 < Gen.APPROX_EPS.rat := by decide +kernel
+/-- `C12_display_exact` on a mixed fraction with a non-zero error: `2 1/3 (+1/300)` -/
+example : newApprox ratTable (2 + 1/3 + 1/300 : Rat) (5/100) 4 10 = some (.fraction 2 1 3 (1/300)) := by
+  decide +kernel
+/-- the reader really reads: `2 1/3` is 7/3, and a string that is not a printed fraction is refused -/
+example : readFraction "2 1/3".toList = some (7/3) := by decide +kernel
+example : readFraction "2 1/".toList = none := by decide +kernel
+/-- the whole-part limit declines -/
+example : newApprox ratTable (7/2 : Rat) (5/100) 4 2 = none := by decide +kernel
+/-- the hypothesis of `C12_declines_nonfinite` at the exact instance -/
+example : Arith.le (-1 : Rat) (Arith.ofNat 0) = true := by decide +kernel
 
 end Cook
